@@ -83,7 +83,16 @@ def check_hashing(ctx, W, rule):
         whole = is_call(data) and callee_name(data[1]) == "concat" and data[2] and values.strip_payload(W.expand(data[2][0])) == PIECES
         hdet = "one-shot digest of %s" % fmt(data)[:120]
     okalg = alg == ("field", ("param", hf.path, 1), "algorithm")
-    oktake = is_call(take, "MerkleTree::hash_len") and take[2][0] == ("param", hf.path, 1) if take is not None else False
+    # the output is truncated to the tree's node width: the truncation length evaluates, for every protocol version, to the width the protocol
+    # prescribes (`self.hash_len()`, a cached `self.hash_len` field, or a constant per version alike)
+    from lib import intval, VERSION, VERSIONS
+    oktake = take is not None
+    for v in VERSIONS:
+        assume = {("field", ("param", f.path, 1), "version"): ("enum", VERSION, v) for f in ctx.prog.fns.values() if f.impl_self == MERKLE}
+        evv = values.Ev(ctx.prog, hf, assume=assume)
+        evv.live()
+        if take is None or intval(W, evv, take) != sp["versions"][v]["node_width"]:
+            oktake = False
     ctx.check(rule, "hash/every-input-slice-whole-in-order", whole and okalg and oktake,
               "hash(pieces) = digest(self.algorithm, piece_0 || piece_1 || ..)[..hash_len()]",
               "MerkleTree::hash does not digest every input slice whole, in order, under self.algorithm, truncated to hash_len(): %s (algorithm ok=%s, truncation ok=%s)" % (hdet, okalg, oktake),
